@@ -81,7 +81,7 @@ def make_list(kind, length, sym_pos, classes, via_equ=False):
                "nsym": len(sym_pos), "via_equ": via_equ, "directive": kind, "negzero": negzero,
                "cls0": classes[0] if classes else None}
         return ctx.known(PID, {"part": "list", "directive": kind, "single": length == 1, "via_equ": via_equ}, env), info
-    return Ob(oid, body, timeout=90, tags={"part": "list", "directive": kind}, text="%s list len %d sym@%s %s" % (kind, length, sym_pos, classes))
+    return Ob(oid, body, timeout=(400 if len(sym_pos) > 3 else 90), tags={"part": "list", "directive": kind}, text="%s list len %d sym@%s %s" % (kind, length, sym_pos, classes))
 
 
 def make_rmb_sym(cls):
